@@ -166,6 +166,10 @@ func (env *specEnv) lookupIdent(name string) (Value, bool) {
 		}
 	}
 	if !env.calleeCtx {
+		if pv, ok := ex.freeVars[name]; ok {
+			// captured variable of a closure: current value through its address
+			return ex.load(env.st, ex.addrOf(pv)), true
+		}
 		if pv, ok := ex.heapLocals[name]; ok {
 			return ex.load(env.st, ex.addrOf(pv)), true
 		}
@@ -231,6 +235,12 @@ func (env *specEnv) eval(e ast.Expr) Value {
 				env.fail("bad integer literal %s", t.Value)
 			}
 			return Value{K: bi}
+		case token.FLOAT:
+			f, err := strconv.ParseFloat(t.Value, 64)
+			if err != nil {
+				env.fail("bad float literal %s", t.Value)
+			}
+			return Value{T: types.Typ[types.Float64], C: []*Term{fpConst(f)}}
 		case token.STRING:
 			s, _ := strconv.Unquote(t.Value)
 			return Value{T: types.Typ[types.String], C: []*Term{strConst(s)}}
@@ -662,6 +672,29 @@ func (env *specEnv) evalCall(t *ast.CallExpr) Value {
 				env.fail("callid() is only available in a callee contract applied at a call site")
 			}
 			return Value{T: intT, C: []*Term{env.callID}}
+		case "visited":
+			// visited(k): key k has already been produced by the map range statement of the current loop
+			li := env.ex.curLoop
+			if li == nil {
+				env.fail("visited() is only available in invariants of a map range loop")
+			}
+			var rg *ssa.Range
+			for b := range li.body {
+				for _, in := range b.Instrs {
+					if nx, ok := in.(*ssa.Next); ok && !nx.IsString {
+						if r, ok := nx.Iter.(*ssa.Range); ok && !li.body[r.Block()] {
+							rg = r
+						}
+					}
+				}
+			}
+			if rg == nil {
+				env.fail("visited(): the loop is not a map range loop")
+			}
+			mt := rg.X.Type().Underlying().(*types.Map)
+			k := env.toType(env.eval(t.Args[0]), mt.Key())
+			cls := env.ex.visitedClass(rg)
+			return boolV(env.ex.heapOf(env.st, cls).Read(k.C))
 		case "isnil":
 			x := env.eval(t.Args[0])
 			return boolV(Eq(x.C[0], IntC(0)))
